@@ -54,10 +54,10 @@ impl GraphBlock {
         match self {
             GraphBlock::BulletList(items) => items
                 .iter()
-                .any(|item| item.iter().filter(|block| block.is_paragraph()).count() > 1),
+                .any(|item| item.iter().filter(|block| block.needs_blank_line()).count() > 1),
             GraphBlock::OrderedList(items) => items
                 .iter()
-                .any(|item| item.iter().filter(|block| block.is_paragraph()).count() > 1),
+                .any(|item| item.iter().filter(|block| block.needs_blank_line()).count() > 1),
             _ => false,
         }
     }
@@ -66,6 +66,19 @@ impl GraphBlock {
         match self {
             GraphBlock::BulletList(_) => true,
             GraphBlock::OrderedList(_) => true,
+            _ => false,
+        }
+    }
+
+    // blocks that merge with the preceding text of a list item (or with each other) unless a
+    // blank line keeps them apart
+    fn needs_blank_line(&self) -> bool {
+        match self {
+            GraphBlock::Plain(_) => true,
+            GraphBlock::Para(_) => true,
+            GraphBlock::BlockQuote(_) => true,
+            GraphBlock::HorizontalRule => true,
+            GraphBlock::Table(_, _, _) => true,
             _ => false,
         }
     }
